@@ -19,6 +19,21 @@ def run(tier):
                 pr.errors.append(f'vacuity guard: {name} was not refuted ({verdict}) — the lemma harness is unsound')
             continue
         pr.add_obligation('C11.' + name, verdict, backend, secs, detail=detail)
+    # the logic treats ints and floats as mathematical numbers: a bounded native sweep of value_compare over a grid that
+    # includes machine-number edges (integers around 2**53 against floats, infinities, an int beyond the float range) stands
+    # in for that assumption on every run
+    from contracts.value_c import VALUE_COMPARE_WITNESS
+    from pyvc.replay import run_witness
+    res = run_witness(VALUE_COMPARE_WITNESS, timeout=300)
+    pr.bounded.append('value.value_compare on machine numbers: bounded native stand-in — range, antisymmetry, spelling and (on the numbers) '
+                      'transitivity over a 30-value grid including 2**53, 2**53+1, float(2**53), +-inf, 10**400, +-1e308 (IEEE rounding and '
+                      'infinities are outside the logic, which treats numbers as mathematical)')
+    if res.get('violates'):
+        pr.failures.append({'obligation': 'C11.bounded.value_compare-on-machine-numbers', 'function': 'value.value_compare', 'path': '',
+                            'inputs': res['counterexamples'][0], 'replay': {'reproduced': True, 'observed': res['counterexamples']},
+                            'solver': {'backend': 'native-bounded', 'verdict': 'counterexample', 'output': ''}})
+    elif 'error' in res:
+        pr.errors.append('value_compare witness failed to run: ' + str(res['error'])[-300:])
     # consumers
     run_contracts(pr, CMPLIB, tier)
     run_contracts_sel(pr, [EVALUATE_EXPRESSION], tier, 'C11')
